@@ -16,6 +16,11 @@ def sh(cmd, cwd=None, timeout=3600):
 res = {"seed": seed, "title": meta.get("title")}
 try:
     rc, out = sh(f"git -C /repo worktree add -q {wt} HEAD"); assert rc == 0, out
+    # hook files of agents still at work (untracked verif_export_*.go in /repo) belong to the harness's view of the tree
+    rc, out = sh("git -C /repo ls-files --others --exclude-standard")
+    for f in out.split():
+        if os.path.basename(f).startswith("verif_export_") and f.endswith(".go"):
+            os.makedirs(os.path.dirname(os.path.join(wt, f)), exist_ok=True); shutil.copy(os.path.join("/repo", f), os.path.join(wt, f))
     rc, out = sh(f"git apply {seed}/patch.diff", cwd=wt); res["applies"] = rc == 0
     if rc != 0: res["apply_error"] = out[-500:]; raise SystemExit
     rc, out = sh("go build ./...", cwd=wt); res["builds"] = rc == 0
